@@ -12,7 +12,10 @@ RULE = ("type-directed random programs over the documented classical core (int/l
         "reference interpreter (vlib/gen_classical.py) computes the expected echo lines or the "
         "expected first runtime error (kind + line). Distinct = distinct program texts; non-trivial "
         "= at least 3 echo lines or an expected runtime error. The operator x operand-type "
-        "coverage table is reported.")
+        "coverage table is reported. Directed family 'width': every mixed int/long "
+        "+,-,*,% (operands as locals, literals, call results, array elements, parameters) feeds a "
+        "consumer that leaves the 32-bit range but is exact in 64 bits, so a result carried at the "
+        "wrong width prints a different number.")
 ASSUMPTIONS = ["kept out (documentation does not fix the result): integer overflow, '%' on negative "
                "operands, side effects/errors under && and ||, char echo/concatenation, echo of "
                "float[] as a whole, stdout preceding a runtime error, evaluation order of two "
@@ -101,12 +104,117 @@ def check_case(ctx, binary, index, hostile=False):
                       (want, line, cls[4], cls[2]), case, files)
 
 
+# ---- directed family: result width of mixed int/long arithmetic -------------------------------
+# docs: int -> long -> float promotion, so (int op long), (long op int) and (long op long) are long.
+# The printed value of a small result is the same for either width; the width only shows when the
+# result feeds an operation that leaves the 32-bit range.  Every operand form x consumer below is
+# exact in 64 bits (no overflow in the documented semantics), so the expected line is plain
+# integer arithmetic.
+W_OPS = ["+", "-", "*", "%"]
+W_PAIRS = [("int", "long"), ("long", "int"), ("long", "long")]
+W_FORMS = ["local", "literal", "call", "element", "param"]
+W_CONSUMERS = [("(%s) * 1000000000", lambda r: r * 1000000000),
+               ("(%s) + 2147483647", lambda r: r + 2147483647),
+               ("2000000000 + (%s) * 1000", lambda r: 2000000000 + r * 1000),
+               ("-(%s) - 2147483647", lambda r: -r - 2147483647),
+               ("((%s) * 65536) * 65536", lambda r: r * 65536 * 65536)]
+
+
+def width_program(rng):
+    decl, body, exp = [], [], []
+    cells = []
+    for k in range(14):
+        op = rng.choice(W_OPS)
+        lt, rt = rng.choice(W_PAIRS)
+        b = rng.randint(2, 900)
+        a = rng.randint(3, 900)
+        if op == "-":
+            a = b + rng.randint(3, 900)
+        if op == "%":
+            # keep the remainder >= 3 so that every consumer leaves the int range
+            if rng.random() < 0.5:
+                b = a + rng.randint(1, 10 ** 9)   # a % b == a
+            else:
+                a = b * rng.randint(1, 50) + rng.randint(3, b) if b > 3 else a
+                if a % b < 3:
+                    b = a + 7
+        r = {"+": a + b, "-": a - b, "*": a * b, "%": a % b}[op]
+        fl, fr = rng.choice(W_FORMS), rng.choice(W_FORMS)
+
+        def operand(val, ty, form, tag):
+            lit = "%d%s" % (val, "L" if ty == "long" else "")
+            if form == "literal":
+                return lit
+            if form == "local":
+                decl.append("    %s w%s = %s;" % (ty, tag, lit))
+                return "w" + tag
+            if form == "call":
+                return "%s(%s)" % ("idl" if ty == "long" else "idi", lit)
+            if form == "element":
+                decl.append("    %s[] e%s = {%s, %s};" % (ty, tag, lit, lit))
+                return "e%s[1]" % tag
+            return None   # param: handled by the caller
+
+        if "param" in (fl, fr):
+            # both operands arrive as parameters of a helper returning the consumer's value
+            cons, fn = rng.choice(W_CONSUMERS)
+            name = "pw%d" % k
+            cells.append((op, lt, rt, "param", cons))
+            body.append(("function %s(%s pa, %s pb) -> long { return %s; }" % (name, lt, rt, cons % ("pa %s pb" % op)),
+                         "    echo(%s(%d%s, %d%s));" % (name, a, "L" if lt == "long" else "", b, "L" if rt == "long" else "")))
+            exp.append(str(fn(r)))
+            continue
+        la = operand(a, lt, fl, "%da" % k)
+        rb = operand(b, rt, fr, "%db" % k)
+        cons, fn = rng.choice(W_CONSUMERS)
+        cells.append((op, lt, rt, fl + "/" + fr, cons))
+        body.append((None, "    echo(%s);" % (cons % ("%s %s %s" % (la, op, rb)))))
+        exp.append(str(fn(r)))
+    src = ["function idi(int v) -> int { return v; }", "function idl(long v) -> long { return v; }"]
+    src += [t for t, _ in body if t]
+    src += ["function main() -> void {"] + decl + [l for _, l in body] + ["}"]
+    return "\n".join(src) + "\n", exp, cells
+
+
+def width_case(ctx, binary, index):
+    src, exp, cells = width_program(ctx.rng(("width", index)))
+    with ctx.lock:
+        ctx.extra.setdefault("_wcells", set()).update(cells)
+    r, _, _, _ = core.run_bloch(binary, src, timeout=60)
+    cls = r.classify()
+    ctx.note_case(src, nontrivial=True, sample=dict(program=src[:500], expected=exp[:4]))
+    files = {"prog.bloch": src, "stderr.txt": r.stderr[-6000:], "stdout.txt": r.stdout[-4000:],
+             "expected.txt": "\n".join(exp)}
+    case = dict(index=index, family="width")
+    ctx.count("width_programs")
+    if cls[0] != "ok":
+        ctx.violation("classical:width:not-ok:" + str(cls[0]),
+                      "mixed int/long arithmetic program did not finish normally: %r" % (cls[:5],), case, files)
+        return
+    got = r.stdout.split("\n")
+    if got and got[-1] == "":
+        got.pop()
+    ctx.count("width_lines_compared", len(exp))
+    if got != exp:
+        i = next((j for j, (a, b) in enumerate(zip(exp, got)) if a != b), min(len(got), len(exp)))
+        echo_lines = [l for l in src.split("\n") if l.startswith("    echo(")]
+        m = re.search(r" (\+|-|\*|%) ", echo_lines[i]) if i < len(echo_lines) else None
+        ctx.violation("classical:width:" + ({"+": "add", "-": "sub", "*": "mul", "%": "mod"}[cells[i][0]] + ":" + cells[i][1] + "-" + cells[i][2] if i < len(cells) else "length"),
+                      "line %d (%s): expected %s, got %s" %
+                      (i, echo_lines[i].strip() if i < len(echo_lines) else "?", exp[i] if i < len(exp) else None,
+                       got[i] if i < len(got) else None), case, files)
+
+
 def run(ctx):
     ctx.rule = RULE
     ctx.assumptions = ASSUMPTIONS
     binary = build.build("bloch", "asan")
     n = ctx.n(2500, 40000)
     core.pmap(lambda i: check_case(ctx, binary, i), range(n))
+    core.pmap(lambda i: width_case(ctx, binary, i), range(ctx.n(120, 2000)))
+    wc = ctx.extra.pop("_wcells", set())
+    ctx.extra["width_cells_observed"] = sorted("%s:%s-%s:%s" % (c[0], c[1], c[2], c[3]) for c in set((c[0], c[1], c[2], c[3]) for c in wc))
+    ctx.counters["width_cells"] = len(ctx.extra["width_cells_observed"])
     cov = ctx.extra.pop("_cov", set())
     ctx.extra["operator_type_coverage"] = sorted("/".join(map(str, c)) for c in cov)
     ctx.counters["coverage_cells"] = len(cov)
@@ -114,5 +222,9 @@ def run(ctx):
 
 def replay(ctx, data):
     binary = build.build("bloch", "asan")
+    if data["case"].get("family") == "width":
+        width_case(ctx, binary, data["case"]["index"])
+        ctx.extra.pop("_wcells", None)
+        return
     check_case(ctx, binary, data["case"]["index"], data["case"].get("hostile", False))
     ctx.extra.pop("_cov", None)
